@@ -14,6 +14,9 @@ const fixedPrelude = `(declare-sort Str 0)
 (declare-sort Fn 0)
 (declare-sort Cx 0)
 (declare-sort Fl 0)
+(declare-sort Fuel 0)
+(declare-fun FZ () Fuel)
+(declare-fun FS (Fuel) Fuel)
 (declare-datatypes ((Slice 0)) (((mk-slice (s-ref Int) (s-off Int) (s-len Int) (s-cap Int)))))
 (define-fun slice-ok ((s Slice)) Bool (and (<= 0 (s-ref s)) (<= 0 (s-off s)) (<= 0 (s-len s)) (<= (s-len s) (s-cap s))))
 (define-fun tdiv ((a Int) (b Int)) Int (ite (>= a 0) (ite (> b 0) (div a b) (- (div a (- b)))) (ite (> b 0) (- (div (- a) b)) (div (- a) (- b)))))
@@ -191,6 +194,9 @@ func (e *Engine) renderSpec(name, mode string) (rs *renderedSpec, err error) {
 			env.bound[p.Name] = sc(t)
 		}
 	}
+	for k, v := range sf.Fixed {
+		env.bound[k] = sc(v)
+	}
 	ret := x.specSort(sf.Ret)
 	rs = &renderedSpec{}
 	deps := map[string]bool{}
@@ -208,23 +214,85 @@ func (e *Engine) renderSpec(name, mode string) (rs *renderedSpec, err error) {
 		rs.rec = true
 		return rs, nil
 	}
+	rs.rec = e.specRecursive(name)
+	if rs.rec {
+		env.fuelSelf = e.specSCC(name)
+		env.fuelSelf[name] = true
+		env.fuelVar = Term{"p!ly", "Fuel"}
+	}
 	bv := x.evalSpec(env, sf.Body)
 	body := asTerm(bv)
 	if ret == SReal && body.Sort == SInt {
 		body = ToReal(body)
 	}
-	rs.rec = e.specRecursive(name)
 	if rs.rec {
-		rs.decl = fmt.Sprintf("(declare-fun %s (%s) %s)\n", smtName, strings.Join(sorts, " "), ret)
-		app := App(ret, smtName, vars...)
-		rs.axioms = fmt.Sprintf("(assert (forall (%s) (! (= %s %s) :pattern (%s))))\n", strings.Join(ps, " "), app.S, body.S, app.S)
+		rs.decl = fmt.Sprintf("(declare-fun %s (Fuel %s) %s)\n", smtName, strings.Join(sorts, " "), ret)
+		hi := App(ret, smtName, append([]Term{{"(FS p!ly)", "Fuel"}}, vars...)...)
+		lo := App(ret, smtName, append([]Term{{"p!ly", "Fuel"}}, vars...)...)
+		rs.axioms = fmt.Sprintf("(assert (forall ((p!ly Fuel) %s) (! (= %s %s) :pattern (%s))))\n", strings.Join(ps, " "), hi.S, body.S, hi.S) +
+			fmt.Sprintf("(assert (forall ((p!ly Fuel) %s) (! (= %s %s) :pattern (%s))))\n", strings.Join(ps, " "), hi.S, lo.S, hi.S)
 	} else {
 		rs.decl = fmt.Sprintf("(define-fun %s (%s) %s %s)\n", smtName, strings.Join(ps, " "), ret, body.S)
 	}
 	return rs, nil
 }
 
+// specSCC: the recursive spec functions mutually reachable with name (including itself).
+func (e *Engine) specSCC(name string) map[string]bool {
+	reach := func(from string) map[string]bool {
+		seen := map[string]bool{}
+		var walk func(n string)
+		walk = func(n string) {
+			sf := e.specs.Funcs[n]
+			if sf == nil || sf.Body == nil {
+				return
+			}
+			deps := map[string]bool{}
+			specDeps(sf.Body, deps)
+			for d := range deps {
+				if !seen[d] {
+					seen[d] = true
+					walk(d)
+				}
+			}
+		}
+		walk(from)
+		return seen
+	}
+	out := map[string]bool{}
+	for d := range reach(name) {
+		if reach(d)[name] {
+			out[d] = true
+		}
+	}
+	return out
+}
+
+func (e *Engine) topFuel() Term {
+	n := e.curFuel
+	if n <= 0 {
+		n = 2
+	}
+	t := "FZ"
+	for i := 0; i < n; i++ {
+		t = "(FS " + t + ")"
+	}
+	return Term{t, "Fuel"}
+}
+
 func (e *Engine) specRecursive(name string) bool {
+	if v, ok := e.recMemo[name]; ok {
+		return v
+	}
+	r := e.specRecursive0(name)
+	e.recMemo[name] = r
+	return r
+}
+
+func (e *Engine) specRecursive0(name string) bool {
+	if sf := e.specs.Funcs[name]; sf != nil && sf.Base != "" {
+		return e.specRecursive(sf.Base)
+	}
 	// reachable from itself?
 	seen := map[string]bool{}
 	var walk func(n string) bool
@@ -357,6 +425,7 @@ func (e *Engine) safeEval(x *Exec, env *SpecEnv, ex Expr) (t Term, err error) {
 
 // BuildQuery assembles the SMT-LIB text of one obligation.
 func (e *Engine) BuildQuery(o *Obligation, withModel bool) (string, error) {
+	e.curFuel = o.Fuel
 	var body strings.Builder
 	for i, h := range o.Hyps {
 		fmt.Fprintf(&body, "(assert (! %s :named h%d))\n", h.T.S, i)
